@@ -390,6 +390,45 @@ def gen_det_spec(rng: random.Random, *, delays: bool = False) -> dict:
     return {"steps": steps, "externals": [], "det_uids": True}
 
 
+def gen_retry_race_spec(rng: random.Random) -> dict:
+    """an external action (cancel) arriving in the instant an attempt of a retried step fails.
+
+    The retried step's attempts fail right behind a gate; its policy mostly asks for an immediate retry (delay 0:
+    `wait_fixed(0)` / `ConstantDelayRetryPolicy(delay=0)` / a chain starting with zeros), sometimes for a positive delay.
+    A quick sibling branch gives the control loop other ticks to handle while the attempt is in flight.  The cancel
+    carries `with_gate`: the scheduler of live.py may then deliver it together with the opening of a gate (see
+    `_quiescent`), i.e. the failed attempt and the cancel tick are in front of the control loop at once."""
+    n = rng.randint(2, 5)
+    r = rng.random()
+    if r < 0.45:
+        pol = {"kind": "attempts", "n": n, "wait": 0}
+    elif r < 0.7:
+        pol = {"kind": "legacy", "n": n, "wait": 0}
+    elif r < 0.85:
+        pol = {"kind": "chain", "n": n, "waits": [0, 0, rng.choice([0, 0, 2])]}
+    else:
+        pol = {"kind": rng.choice(["attempts", "legacy"]), "n": n, "wait": rng.choice([1, 3])}
+    nfail = rng.randint(1, n)  # == n: the budget runs out
+    e = rng.randint(1, 9)
+    wscript: list = [["gate"], ["fail_until", nfail, e]]
+    if rng.random() < 0.3:
+        wscript.append(["gate"])
+    wscript.append(["ret", rng.choice(["6", "none", "none", "stop"])])
+    worker = {"name": "s02", "accepts": [5], "nw": rng.randint(1, 2), "retry": pol, "script": wscript}
+    sibling = {"name": "s04", "accepts": [6], "nw": 1, "retry": None,
+               "script": ([["gate"]] if rng.random() < 0.4 else []) + [["ret", "none"]]}
+    start = {"name": "s00", "accepts": [0], "nw": 1, "retry": None,
+             "script": [["send", 5, None, rng.choice([None, 1, 2])] for _ in range(rng.randint(1, 2))] +
+                       ([["send", 6, None, None]] if rng.random() < 0.8 else []) + [["ret", "none"]]}
+    sends = start["script"][:-1]
+    rng.shuffle(sends)
+    start["script"] = sends + start["script"][-1:]
+    steps = [start, worker, sibling]
+    rng.shuffle(steps)
+    return {"steps": steps,
+            "externals": [{"op": "cancel", "after_quiet": rng.randint(0, 4), "with_gate": rng.choice(["after", "after", "before"])}]}
+
+
 _general = gen_spec
 
 
